@@ -123,7 +123,7 @@ def main():
     baseline = json.load(open(os.path.join(ROOT, 'baseline_obligations.json'))) if os.path.exists(os.path.join(ROOT, 'baseline_obligations.json')) else {}
     known, fixed = load_known()
     my_units = [u for u in units if prop in u.props]
-    timeout_ms = 10000 if tier == 'quick' else 60000
+    timeout_ms = 15000 if tier == 'quick' else 60000
     res = run_units(my_units, timeout_ms=timeout_ms) if my_units else {}
     # ------------------------------------------------ deductive verdicts
     obligations = []           # (unit, obname, status, detail, backends, secs)
